@@ -6,6 +6,7 @@ import (
 	"fmt"
 	"go/ast"
 	"os"
+	"os/exec"
 	"path/filepath"
 	"runtime/debug"
 	"sort"
@@ -116,6 +117,18 @@ func loadKnown(path string) (*knownFile, error) {
 	return &k, nil
 }
 
+// routeAEnv overrides the environment of the go/packages driver so that `go list` is the default go
+// command, which selects the cached go1.25.0 toolchain named by /repo/go.mod (DESIGN.md §1, route A).
+func routeAEnv() []string {
+	var keep []string
+	for _, d := range filepath.SplitList(os.Getenv("PATH")) {
+		if !strings.Contains(d, "/opt/veriftools/go") {
+			keep = append(keep, d)
+		}
+	}
+	return []string{"PATH=" + strings.Join(keep, string(os.PathListSeparator)), "GOTOOLCHAIN=auto", "GOSUMDB=sum.golang.org", "GOROOT="}
+}
+
 func verifDir() string {
 	if d := os.Getenv("VERIF_DIR"); d != "" {
 		return d
@@ -179,7 +192,7 @@ func main() {
 		fmt.Fprintf(os.Stderr, "pscheck: %s: broken check (not a verdict): %v\n", pr.ID, res.Err)
 		os.Exit(2)
 	}
-	configs := []configResult{{Name: "linux/amd64 (route B, go1.26.8)", Obligations: len(res.Obs), Same: true}}
+	configs := []configResult{{Name: "linux/amd64 (route B)", Obligations: len(res.Obs), Same: true, Toolchain: driverGoVersion(*repo, nil), Std: res.Std}}
 	var audit []mutantResult
 	if *tier == "thorough" {
 		// (a) other build configurations, each diffed against the primary table
@@ -187,6 +200,7 @@ func main() {
 			name string
 			opt  LoadOptions
 		}{
+			{"linux/amd64 (route A: the go1.25.0 toolchain the test suite is built with)", LoadOptions{Repo: *repo, Env: routeAEnv()}},
 			{"linux/386", LoadOptions{Repo: *repo, Env: []string{"GOARCH=386"}}},
 			{"tags=verif", LoadOptions{Repo: *repo, Tags: "verif"}},
 		} {
@@ -196,7 +210,7 @@ func main() {
 				os.Exit(2)
 			}
 			same, diff := sameVerdicts(res.Obs, r2.Obs)
-			configs = append(configs, configResult{Name: cfgx.name, Obligations: len(r2.Obs), Same: same, Diff: diff})
+			configs = append(configs, configResult{Name: cfgx.name, Obligations: len(r2.Obs), Same: same, Diff: diff, Toolchain: driverGoVersion(*repo, cfgx.opt.Env), Std: r2.Std})
 			if !same {
 				// evaluate the union: violations present only under the other configuration count
 				for _, o := range r2.Obs {
@@ -315,6 +329,7 @@ type runResult struct {
 	Stats map[string]int
 	Note  []string
 	Err   error
+	Std   string
 }
 
 func runProperty(pr *Property, opt LoadOptions) (res runResult) {
@@ -349,7 +364,7 @@ func runProperty(pr *Property, opt LoadOptions) (res runResult) {
 		pr.Run(c)
 	}()
 	sort.SliceStable(c.Obs, func(i, j int) bool { return c.Obs[i].Key < c.Obs[j].Key })
-	return runResult{Obs: c.Obs, Min: c.Min, Stats: p.Stats, Note: c.Note}
+	return runResult{Obs: c.Obs, Min: c.Min, Stats: p.Stats, Note: c.Note, Std: p.StdRoot}
 }
 
 type configResult struct {
@@ -357,6 +372,32 @@ type configResult struct {
 	Obligations int      `json:"obligations"`
 	Same        bool     `json:"same_verdicts_as_primary"`
 	Diff        []string `json:"diff,omitempty"`
+	Toolchain   string   `json:"go_list_toolchain,omitempty"`
+	Std         string   `json:"stdlib_loaded_from,omitempty"`
+}
+
+// driverGoVersion reports the version of the go command the go/packages driver runs under the given
+// extra environment (so the evidence shows which toolchain's view of the build was analysed).
+func driverGoVersion(repo string, extra []string) string {
+	cmd := exec.Command("go", "env", "GOVERSION")
+	cmd.Dir = repo
+	cmd.Env = append(os.Environ(), extra...)
+	for _, kv := range extra {
+		if strings.HasPrefix(kv, "PATH=") {
+			// resolve "go" in the overridden PATH
+			for _, d := range filepath.SplitList(strings.TrimPrefix(kv, "PATH=")) {
+				if st, err := os.Stat(filepath.Join(d, "go")); err == nil && !st.IsDir() {
+					cmd.Path = filepath.Join(d, "go")
+					break
+				}
+			}
+		}
+	}
+	out, err := cmd.Output()
+	if err != nil {
+		return "unknown (" + err.Error() + ")"
+	}
+	return strings.TrimSpace(string(out))
 }
 
 func hasKey(obs []*Obligation, k string) bool {
